@@ -103,6 +103,10 @@ def rule_equivariance(ck):
                 # boolean-mask selection (mask itself derived from the vector) is element-wise
                 if not positional and is_vec(sl):
                     continue
+                # numpy.unique(v, return_counts=True)[k] selects a component of the (values, counts) pair, not an element
+                if isinstance(n.value, ast.Call) and (callee(P, f, n.value) or '') == 'numpy.unique' and isinstance(const_value(sl), int) \
+                        and [k_.arg for k_ in n.value.keywords if const_value(k_.value) is True] == ['return_counts'] and len(n.value.args) == 1:
+                    continue
                 n_uses += 1
                 o = ck.ob('C20-D2.positional', f, n, n)
                 if positional:
@@ -210,6 +214,13 @@ def rule_cells(ck):
         val = u(strip_shape(exw.expand(st.value)))
         pos = [u(exw.expand(x)) for x in st.targets[0].slice.elts[:2]]
         ok = val in (IDX, 'builtins.int(%s)' % IDX) and all(p_.endswith('[%s]' % IDX) and 'bin1d_vec' in p_ for p_ in pos)
+        if not ok:
+            # for i, (iy, ix) in enumerate(zip(idy, idx)): position i of the zipped index arrays, which have one entry per polygon
+            import re as _re
+            m_ = _re.fullmatch(r'(?:builtins\.int\()?__index__\(builtins\.zip\((.*)\)\)\)?', val)
+            if m_ and all(p_.startswith('__elem__(') and 'bin1d_vec' in p_ and p_[len('__elem__('):-1] in m_.group(1) for p_ in pos) \
+                    and all('numpy.array([poly.centroid() for poly in self.polygons])' in p_ for p_ in pos):
+                ok = True
         if not ok:
             ck.note('idx_map store: value `%s`, position %s' % (val[:80], [p_[-70:] for p_ in pos]))
     (o.ok() if ok else o.fail('the index map is not filled with each polygon\'s position at its own (row, col)'))
